@@ -1,11 +1,20 @@
-(* C01 — theorems are added as they close; see Index/Index.v (model) and Index/Index_Spec.v (spec) *)
-From SA Require Import Base.Prelude Index.Index Index.Index_Spec.
+(* C01 — term frequency equals the number of times the tokenizer emitted the term.
+   Statement-only file.  Model: Index/Index.v (gather -> sort by (term, doc, posn) -> boundary encoding ->
+   per-batch postings -> concat; termfreqs = popcount reduce + unrolled scatter).  Spec: Index/Index_Spec.v.
+   docs = the tokenizer's output per document (tokens renamed to term ids by any injection). *)
+From SA Require Import Base.Prelude Index.Index Index.Index_Spec Index.Index_Proofs3.
 Open Scope N_scope.
-Example C01_model_spec_example :
+
+(* for every corpus within the limits (each document <= 262143 tokens, fewer than 2^28 rows), EVERY batch size,
+   every term present or absent: indexing succeeds and termfreqs is the per-document count, one entry per row *)
+Theorem C01_termfreqs_is_count : forall docs bs, wf_docs docs ->
+  exists ix, index false bs docs = AOk ix /\ forall t, termfreqs ix t = AOk (tf_spec docs t).
+Proof. exact C01_termfreqs_any. Qed.
+Print Assumptions C01_termfreqs_is_count.
+
+Example C01_nonvacuous :
+  wf_docs [[1;2;1;3];[];[2];[1;1;2];[]] /\
   match index false 2 [[1;2;1;3];[];[2];[1;1;2];[]] with
-  | AOk ix => termfreqs ix 1 = AOk (tf_spec [[1;2;1;3];[];[2];[1;1;2];[]] 1) /\
-              docfreq ix 2 = AOk (df_spec [[1;2;1;3];[];[2];[1;1;2];[]] 2) /\
-              doclengths ix = lens_spec [[1;2;1;3];[];[2];[1;1;2];[]] /\
-              positions ix 2 = AOk (positions_spec [[1;2;1;3];[];[2];[1;1;2];[]] 2)
+  | AOk ix => termfreqs ix 1 = AOk [2;0;0;2;0] /\ termfreqs ix 9 = AOk [0;0;0;0;0]
   | _ => False end.
-Proof. vm_compute. repeat split. Qed.
+Proof. split; [split; [repeat constructor; cbn; lia | cbn; lia] | vm_compute; split; reflexivity]. Qed.
